@@ -64,7 +64,7 @@ def apply_edits(root, edits):
             f.write(s.replace(old, new))
 
 
-def run_on(pid, root):
+def run_on(pid, root, with_witness=False):
     """run the quick rules of property pid on the tree at root; returns (violations, undecided, error)"""
     import importlib
     mod = importlib.import_module("props." + pid)
@@ -75,6 +75,9 @@ def run_on(pid, root):
         return None, None, "does not type-check: " + str(e)[-600:]
     prog = facts.load(f["lib"])
     mod.run(ck, prog, {"tier": "quick", "seed": 0, "root": root, "facts": f, "mutant": True})
+    if with_witness:
+        import witness
+        witness.run(ck, pid, {"root": root})
     known = {(k["property"], k["key"]) for k in core.load_known()["findings"]}
     viol = [o for o in ck.obligations if o["ok"] is False and (pid, o["key"]) not in known]
     und = [o for o in ck.obligations if o["ok"] is None]
@@ -103,7 +106,7 @@ def run(ck, pid, ctx):
             except EditError as e:
                 ck.violation("MUTANT", m["name"], "checker-selftest: mutant %s no longer applies to the tree: %s" % (m["name"], e))
                 continue
-            viol, und, err = run_on(pid, d)
+            viol, und, err = run_on(pid, d, with_witness=bool(m.get("witness")))
         finally:
             shutil.rmtree(d, ignore_errors=True)
         if err:
